@@ -13,6 +13,8 @@
 (*   expect : (generated cases) the ring table TLC emitted with the case   *)
 (*   fdata  : [dims, vals, base] face-centred tracer base+i after get_dual *)
 (*   ndata  : [dims, vals, base] node-centred (time, n_node) tracer        *)
+(*   layouts: [in_dims, out_dims, shape, vals, base] tracers whose grid    *)
+(*            dimension is first / in the middle (lev = 3, time = 2)       *)
 (*   dsdata : the same two tracers through UxDataset.get_dual              *)
 (*   dual2, dual3, dual4 : the dual tables of the grids attached to those  *)
 (* A verdict is the set of names of the clauses that are false, printed as *)
@@ -30,6 +32,17 @@ Has(r, f) == f \in DOMAIN r
 
 Tracer1(base, n)    == [ k \in 1..n |-> base + k - 1 ]
 Tracer2(base, t, n) == [ a \in 1..t |-> [ k \in 1..n |-> base + (a - 1) * n + k - 1 ] ]
+
+\* data of any layout: every dimension is renamed by name, sizes and values stay
+SwapDim(d)  == IF d = "n_face" THEN "n_node" ELSE IF d = "n_node" THEN "n_face" ELSE d
+DimSize(d, nF, nN) == CASE d = "n_face" -> nF [] d = "n_node" -> nN [] d = "lev" -> 3 [] d = "time" -> 2
+RECURSIVE Prod(_, _)
+Prod(s, k)  == IF k = 0 THEN 1 ELSE s[k] * Prod(s, k - 1)
+LayoutOK(l, nF, nN) ==
+    /\ l.out_dims = [ k \in 1..Len(l.in_dims) |-> SwapDim(l.in_dims[k]) ]
+    /\ l.shape = [ k \in 1..Len(l.in_dims) |-> DimSize(l.in_dims[k], nF, nN) ]
+    /\ Len(l.vals) = Prod(l.shape, Len(l.shape))
+    /\ l.vals = Tracer1(l.base, Len(l.vals))
 
 Clauses(r) ==
   LET mesh == r.mesh
@@ -57,6 +70,8 @@ Clauses(r) ==
     NodeDataToFaces  |-> (cl /\ Has(r, "ndata")) =>
                             /\ r.ndata.dims = << "time", "n_face" >>
                             /\ r.ndata.vals = Tracer2(r.ndata.base, 2, nN),
+    DataLayouts      |-> (cl /\ Has(r, "layouts")) =>
+                            \A k \in 1..Len(r.layouts) : LayoutOK(r.layouts[k], Len(mesh), nN),
     DatasetDataSwapped |-> (cl /\ Has(r, "dsdata")) =>
                             /\ r.dsdata.adims = << "n_node" >>
                             /\ r.dsdata.avals = Tracer1(r.dsdata.base, Len(mesh))
